@@ -6,11 +6,20 @@
 (* kind; EventOf builds, from the concrete outcome, the event record that  *)
 (* the abstract layer judges - the same record shape the harness logs.     *)
 (***************************************************************************)
-EXTENDS Abstract, MaxHeap, MinMaxHeap
+EXTENDS Abstract, MaxHeap, MinMaxHeap, SequencesExt
 
 \* function key -> rank  ==>  function slot index -> rank (keys not stored are ignored)
 WrSlots(s, set, n) ==
   LET ks == {k \in DOMAIN set : Has(s, k) /\ IdxOf(s, k) < n} IN
+  [j \in {IdxOf(s, k) : k \in ks} |-> set[CHOOSE k \in ks : IdxOf(s, k) = j]]
+\* iter_mut: the first nf slots from the front, then up to nb of the remaining ones from the back
+NbOf(op) == IF "nb" \in DOMAIN op THEN op.nb ELSE 0
+Min2(a, b) == IF a < b THEN a ELSE b
+IterSlots(s, nf, nb) ==
+  LET len == Len(s.keys)  f == Min2(nf, len)  bk == Min2(nb, len - f) IN
+  {i \in 0..(len-1) : i < f \/ i >= len - bk}
+WrIter(s, set, nf, nb) ==
+  LET ks == {k \in DOMAIN set : Has(s, k) /\ IdxOf(s, k) \in IterSlots(s, nf, nb)} IN
   [j \in {IdxOf(s, k) : k \in ks} |-> set[CHOOSE k \in ks : IdxOf(s, k) = j]]
 KeepSlots(s, keep) == {IdxOf(s, k) : k \in {x \in keep : Has(s, x)}}
 \* hint codes of the harness: <<>> = exact; hi = -1: None, -2: usize::MAX, -3: usize::MAX/2 (both
@@ -36,8 +45,8 @@ Apply(kind, s, op, f) ==
          LET keep == KeepSlots(s, op.keep)  wr == WrSlots(s, op.set, Len(s.keys)) IN
          IF pq THEN PqRetain(s, keep, wr, f) ELSE DqRetain(s, keep, wr, f)
     [] op.op = "iter_mut" ->
-         IF pq THEN PqIterMut(s, WrSlots(s, op.set, op.n), op.forget, f)
-         ELSE DqIterMut(s, WrSlots(s, op.set, op.n), op.forget, f)
+         IF pq THEN PqIterMut(s, WrIter(s, op.set, op.n, 0), op.forget, f)
+         ELSE DqIterMut(s, WrIter(s, op.set, op.n, NbOf(op)), op.forget, f)
     [] op.op = "extend" ->
          LET rb == ExtendRebuilds(s.size, DecodeHint(op.hint, Len(op.pairs))) IN
          IF pq THEN PqExtend(s, op.pairs, rb, f) ELSE DqExtend(s, op.pairs, rb, f)
@@ -45,10 +54,12 @@ Apply(kind, s, op, f) ==
     [] op.op = "clear" -> Ok(Empty, f, <<>>)
     [] op.op = "from_vec"  -> IF pq THEN PqFromVec(op.pairs, f) ELSE DqFromVec(op.pairs, f)
     [] op.op = "from_iter" -> IF pq THEN PqFromIter(op.pairs, f) ELSE DqFromIter(op.pairs, f)
+    [] op.op = "de" -> IF pq THEN PqDeserialize(op.pairs, f) ELSE DqDeserialize(op.pairs, f)
+    [] op.op = "roundtrip" -> IF pq THEN PqDeserialize(Entries(s), f) ELSE DqDeserialize(Entries(s), f)  \* kind = target kind
     [] OTHER -> Ok(s, f, <<>>)
 Modelled == {"push", "push_increase", "push_decrease", "change_priority", "change_priority_by", "remove",
              "pop", "pop_min", "pop_max", "pop_if", "pop_min_if", "pop_max_if", "retain", "retain_mut",
-             "iter_mut", "extend", "convert", "clear", "from_vec", "from_iter"}
+             "iter_mut", "extend", "convert", "clear", "from_vec", "from_iter", "de", "roundtrip"}
 
 \* ------------------------------------------------------------------ model-side events
 \* The model carries neither payloads nor tags: both are 0 in model events.
@@ -86,9 +97,11 @@ EventOf(kind, s, op, r) ==
                         set |-> IF s.keys[i] \in DOMAIN op.set THEN <<[r |-> op.set[s.keys[i]], t |-> 0]>> ELSE <<>>,
                         newpay |-> <<>>]]]
     [] op.op = "iter_mut" ->
-         LET m == IF op.n < Len(s.keys) THEN op.n ELSE Len(s.keys) IN
+         LET sl  == IterSlots(s, op.n, IF kind = "pq" THEN 0 ELSE NbOf(op))
+             ord == SetToSortSeq(sl, LAMBDA x, y : x < y) IN
          [op |-> op.op, forget |-> op.forget,
-          ys |-> [i \in 1..m |->
+          ys |-> [j \in 1..Len(ord) |->
+                    LET i == ord[j] + 1 IN
                     [k |-> s.keys[i], pay |-> 0, r |-> s.pri[i], t |-> 0, ai |-> i,
                      set |-> IF s.keys[i] \in DOMAIN op.set THEN <<[r |-> op.set[s.keys[i]], t |-> 0]>> ELSE <<>>,
                      newpay |-> <<>>]]]
